@@ -360,6 +360,26 @@ struct Driver
                 ex << ",\"moved\":" << hx(ok ? dist : 0.0);
                 this->emit("M", ok, ex.str());
             }
+            else if (op == "P")
+            {
+                // move_internal(pos) to the point pos + f * next_step * dir
+                double f = rd(is);
+                double ns = store->ref().next_step[TrackSlotId{0}];
+                double dist = f * ns;
+                bool ok = this->has_next_step() && dist > 0 && dist < ns
+                          && std::isfinite(dist);
+                if (ok)
+                {
+                    Real3 p = g.pos();
+                    Real3 u = g.dir();
+                    Real3 q{p[0] + dist * u[0], p[1] + dist * u[1], p[2] + dist * u[2]};
+                    g.move_internal(q);
+                    crossed = false;
+                }
+                std::ostringstream ex;
+                ex << ",\"moved\":" << hx(ok ? dist : 0.0);
+                this->emit("P", ok, ex.str());
+            }
             else if (op == "B")
             {
                 bool ok = !this->reentrant() && this->has_next_step()
